@@ -13,14 +13,19 @@ from sim.core.sched import BatonScheduler
 from sim.core import runner
 import os
 
+import clastic.route as croute
+
 WATCH = (os.path.join(runner.REPO, 'clastic') + os.sep, '<sinter')
 
 
 def make_route(e, shared=None):
     ms = e['methods']
+    if e.get('mform') == 'class' and ms and len(ms) == 1 and hasattr(croute, ms[0].upper()):
+        # the convenience class named after the method (clastic.route.GET, POST, ..., OPTIONS, TRACE, CONNECT, PATCH)
+        return getattr(croute, ms[0].upper())(e['pattern'], R.make_endpoint(e['tag'], e['out'], shared))
     if ms is not None:
         # any collection a caller may hand over (an empty one means "no restriction", like None)
-        ms = {'list': list, 'tuple': tuple, 'set': set, 'frozenset': frozenset, 'iter': iter, 'gen': lambda m: (x for x in m), 'map': lambda m: map(str, m), 'dictkeys': lambda m: dict.fromkeys(m).keys()}[e.get('mform', 'list')](ms)
+        ms = {'class': list, 'list': list, 'tuple': tuple, 'set': set, 'frozenset': frozenset, 'iter': iter, 'gen': lambda m: (x for x in m), 'map': lambda m: map(str, m), 'dictkeys': lambda m: dict.fromkeys(m).keys()}[e.get('mform', 'list')](ms)
     return Route(e['pattern'], R.make_endpoint(e['tag'], e['out'], shared), methods=ms)
 
 
@@ -53,7 +58,7 @@ class C06(Check):
     def gen_entry(self, rng, mode, k):
         pats = R.STRICT_OK if mode == 'strict' else sorted(R.CAT)
         return {'pattern': rng.choice(pats), 'methods': rng.choice(R.METHOD_SETS),
-                'mform': rng.choice(['list', 'list', 'tuple', 'set', 'frozenset', 'dictkeys', 'iter', 'gen', 'map']),
+                'mform': rng.choice(['list', 'class', 'class', 'tuple', 'set', 'frozenset', 'dictkeys', 'iter', 'gen', 'map']),
                 'out': rng.choice(R.OUTCOMES + ['nbS403', 'nbS403', 'nbS404']), 'tag': 'r%d' % k}
 
     def generate(self, seed, tier):
